@@ -4,7 +4,7 @@ from common import VERIF
 
 READY = True
 
-STAGE = "1 (reference interpreter + laws + differential oracle)"
+STAGE = "2 (stage 1 + model code generator compared with the real instruction streams, model VM compared with exec and the engine; no refinement theorem yet)"
 
 META = {
     "technique": "Lean 4 reference interpreter (big-step, scopes as heap cells) with kernel-checked scoping / loop-variable / for-else laws; differential oracle: typed random programs -> real parser (AST dumped and compared) -> Template::render vs. the Lean interpreter on the dumped AST, failures shrunk by delta debugging",
@@ -159,6 +159,18 @@ class Runner:
             raise RuntimeError("driver output does not line up")
         return [(l[3], m.split("\t")[1], unhex(l[4])) for l, m in zip(lines, model)]
 
+    def run_full(self, cases):
+        """-> list of (harness fields, driver fields)"""
+        inp = "".join(f"{i}\t{c}\t{p}\n" for i, c, p in cases)
+        rc, out, err = self.r.harness(self.exe, ["batch"], inp=inp)
+        if rc != 0:
+            raise RuntimeError("harness batch failed: " + err[-300:])
+        lines = [l.split("\t") for l in out.splitlines()]
+        model = self.r.driver("drive_c03", "".join("\t".join(l[:3]) + "\n" for l in lines))
+        if model is None or len(model) != len(lines) or len(lines) != len(cases):
+            raise RuntimeError("driver output does not line up")
+        return [(l, m.split("\t")) for l, m in zip(lines, model)]
+
     def fails(self, results):
         return [classify(i, m)[0] == "fail" for i, m, _ in results]
 
@@ -222,8 +234,8 @@ def run(r):
                 corpus.append((f"{os.path.basename(f)}:{k}", fs[-2], fs[-1]))
     cases = []
     if corpus:
-        res = runner.run(corpus)
-        cases += [(cid, c, p, i, m, s, "kinds=corpus") for (cid, c, p), (i, m, s) in zip(corpus, res)]
+        res = runner.run_full(corpus)
+        cases += [(cid, c, p, l[3], m[1], unhex(l[4]), "kinds=corpus", l[6], m[2], m[3]) for (cid, c, p), (l, m) in zip(corpus, res)]
 
     # ---- generated programs
     rc, out, err = r.harness(exe, ["gen", r.tier, str(n)])
@@ -236,16 +248,33 @@ def run(r):
         r.broken.append("model driver output does not line up with the harness cases")
         return
     for l, m in zip(lines, model):
-        mid, mres = m.split("\t")
-        if mid != l[0]:
-            r.broken.append("model driver answered out of order")
+        mf = m.split("\t")
+        if mf[0] != l[0] or len(mf) != 4 or len(l) != 7:
+            r.broken.append("model driver answered out of order / malformed line")
             return
-        cases.append((l[0], l[1], l[2], l[3], mres, unhex(l[4]), l[5]))
+        cases.append((l[0], l[1], l[2], l[3], mf[1], unhex(l[4]), l[5], l[6], mf[2], mf[3]))
 
     conds = constconds = 0
     skipped = 0
     nfail = 0
-    for cid, ctx, prog, impl, mres, src, stats in cases:
+    ncode = nvm = 0
+    for cid, ctx, prog, impl, mres, src, stats, realcode, modelcode, vmres in cases:
+        # ---- stage 2 streams: model code generator vs real instruction stream, model VM vs engine / exec
+        if modelcode != "oof" and realcode != "-":
+            ncode += 1
+            if modelcode != realcode:
+                ra, rb = realcode[6:-1].split(") ("), modelcode[6:-1].split(") (")
+                k = next((k for k, (x, y) in enumerate(zip(ra, rb)) if x != y), min(len(ra), len(rb)))
+                r.model_disagreement(f"codegen\t{ctx}\t{prog}", f"instr {k}: {ra[k] if k < len(ra) else 'END'} [source: {src}]",
+                                     f"instr {k}: {rb[k] if k < len(rb) else 'END'}")
+            if vmres != "-" and mres != "err:OUT-OF-FRAGMENT":
+                nvm += 1
+                cls = lambda x: x if x.startswith("ok:") else "err"
+                if cls(vmres) != cls(impl):
+                    r.model_disagreement(f"vm\t{ctx}\t{prog}", show(impl) + f" [source: {src}]", show(vmres))
+                if cls(vmres) != cls(mres):
+                    r.broken.append(f"model VM on model code disagrees with exec (counterexample to vm_refines_eval): {src} -> vm {show(vmres)}, exec {show(mres)}")
+        r.hist["codegen_fragment"]["in" if modelcode != "oof" else "outside (macros / calls)"] += 1
         st = dict(kv.split("=", 1) for kv in stats.split(";") if "=" in kv)
         kinds = [k for k in st.get("kinds", "-").split("+") if k != "-"]
         r.count(ctx + prog, nontrivial=bool(kinds))
@@ -275,6 +304,8 @@ def run(r):
                                  "unshrunk:" + "+".join(sorted(kinds_of(sx_parse(prog), set()))))
         if len(r.samples) < 8 and kinds and cid.startswith("g") and int(cid[1:]) % 400 == 7:
             r.sample({"source": src, "ctx": ctx, "engine": show(impl), "spec": show(mres)})
+    r.extra["codegen_streams_compared"] = ncode
+    r.extra["vm_runs_compared"] = nvm
     r.extra["conditions_generated"] = conds
     r.extra["conditions_constant"] = constconds
     r.extra["skipped_out_of_fragment"] = skipped
